@@ -24,7 +24,7 @@ rm $wt/$demo
 echo "## whole suite with the change: go test -count=1 -vet=off ./..." >> $log
 go test -count=1 -vet=off ./... 2>&1 | grep -v '^ok\|no test files' >> $log; 
 fails=$(grep -c '^FAIL\|^--- FAIL' $log)
-suite_fail=$(grep '^--- FAIL' $log | grep -v 'TestSeed\|TestUT ' | head -5)
+suite_fail=$(grep '^--- FAIL' $log | grep -v 'Seed\|TestUT ' | head -5)
 cd /; git -C /repo worktree remove --force $wt
 python3 - <<PY
 import json, os
